@@ -9,7 +9,10 @@ import GaeaVerif.Model.FingerprintGrammar
                                    /repo/mysql/sql_fingerprint_test.go
     m (bl (ENTRY …) SQL)           parseBlackSqls + IsSQLAllowed
     m (mm ((k A B) …))             statement A as blacklist entry, statement B checked against it
-    m (th LEAD ((ITEM SEP) …) ITEM TAIL)   a statement of the token grammar of the theorems
+    m (th LEAD ((ITEM SEP) …) ITEM TAIL)   a statement of the token grammar of the theorems:
+                                   LEAD, SEP, TAIL, GAP = (PIECE …), PIECE = (ws C) | (mlc B) | (dash C B) | (hash B),
+                                   ITEM = (c SEG …) | (vl KW GAP CONTENT ROW …), SEG = (w T) | (n T) | (s T) | (p C T),
+                                   ROW = (GAP GAP CONTENT)
                                    (Model/FingerprintGrammar.lean): the oracle compares the fingerprint
                                    with the one `C36.fingerprint_eq_joinSp` predicts
     s <request> <implementation output>   property oracle on an implementation output
@@ -28,6 +31,7 @@ def Sexp.asAscii? (e : Sexp) : Option (List Char) := e.asBytes?.bind asciiChars?
 def fmtOut : Out → String
   | .ret s => s!"(ok {charsToHex s})"
   | .panic => "panic"
+  | .orig => "bad"   -- never returned by getFingerprint
 
 def tf (b : Bool) : String := if b then "t" else "f"
 
@@ -36,7 +40,7 @@ def parseKind : String → Option Kind
   | _ => none
 
 /-- `((k A B) …)`; `none` = unparsable, `some none` = a byte ≥ 0x80. -/
-def parseSegs (e : Sexp) : Option (Option (List Seg)) :=
+def parseSegs (e : Sexp) : Option (Option (List FingerprintSpec.Seg)) :=
   match e with
   | .list xs =>
     xs.foldr (fun x acc =>
@@ -68,48 +72,50 @@ def parsePiece? (e : Sexp) : Option SepPiece :=
   | .list [.atom "hash", b] => (Sexp.asAscii? b).map SepPiece.hash
   | _ => none
 
-def parseSep? (e : Sexp) : Option FingerprintGrammar.Sep :=
+def parseGap? (e : Sexp) : Option Gap :=
   match e with
-  | .list (c :: ps) =>
-    match parseChar? c, ps.mapM parsePiece? with
-    | some c, some ps => some { first := c, pieces := ps }
+  | .list ps => ps.mapM parsePiece?
+  | _ => none
+
+def parseSeg? (e : Sexp) : Option FingerprintGrammar.Seg :=
+  match e with
+  | .list [.atom "w", t] => (Sexp.asAscii? t).map FingerprintGrammar.Seg.w
+  | .list [.atom "n", t] => (Sexp.asAscii? t).map FingerprintGrammar.Seg.n
+  | .list [.atom "s", t] => (Sexp.asAscii? t).map FingerprintGrammar.Seg.s
+  | .list [.atom "p", c, t] =>
+    match parseChar? c, Sexp.asAscii? t with
+    | some c, some t => some (FingerprintGrammar.Seg.p c t)
     | _, _ => none
+  | _ => none
+
+def parseRow? (e : Sexp) : Option Row :=
+  match e with
+  | .list [g1, g2, c] =>
+    match parseGap? g1, parseGap? g2, Sexp.asAscii? c with
+    | some g1, some g2, some c => some { g1 := g1, g2 := g2, content := c }
+    | _, _, _ => none
   | _ => none
 
 def parseItem? (e : Sexp) : Option Item :=
   match e with
-  | .list [.atom "w", t] => (Sexp.asAscii? t).map Item.word
-  | .list [.atom "n", t] => (Sexp.asAscii? t).map Item.num
-  | .list [.atom "s", t] => (Sexp.asAscii? t).map Item.str
-  | .list [.atom "cn", w, n] =>
-    match Sexp.asAscii? w, Sexp.asAscii? n with
-    | some w, some n => some (Item.cmpNum w n)
-    | _, _ => none
-  | .list [.atom "vl", kw, gap, content] =>
-    match Sexp.asAscii? kw, Sexp.asAscii? gap, Sexp.asAscii? content with
-    | some kw, some gap, some content => some (Item.vlist kw gap content)
-    | _, _, _ => none
-  | .list [.atom "cs", w, t] =>
-    match Sexp.asAscii? w, Sexp.asAscii? t with
-    | some w, some t => some (Item.cmpStr w t)
-    | _, _ => none
+  | .list (.atom "c" :: segs) => (segs.mapM parseSeg?).map Item.chunk
+  | .list (.atom "vl" :: kw :: gap :: content :: rows) =>
+    match Sexp.asAscii? kw, parseGap? gap, Sexp.asAscii? content, rows.mapM parseRow? with
+    | some kw, some gap, some content, some rows => some (Item.vlist kw gap content rows)
+    | _, _, _, _ => none
   | _ => none
 
 def parseStmt? (req : Sexp) : Option Stmt :=
   match req with
-  | .list [.atom "th", .list lead, .list init, last, tail] =>
+  | .list [.atom "th", lead, .list init, last, tail] =>
     let init? := init.mapM fun p =>
       match p with
       | .list [i, s] =>
-        match parseItem? i, parseSep? s with
+        match parseItem? i, parseGap? s with
         | some i, some s => some (i, s)
         | _, _ => none
       | _ => none
-    let tail? : Option (Option FingerprintGrammar.Sep) :=
-      match tail with
-      | .atom "-" => some none
-      | t => (parseSep? t).map some
-    match lead.mapM parsePiece?, init?, parseItem? last, tail? with
+    match parseGap? lead, init?, parseItem? last, parseGap? tail with
     | some lead, some init, some last, some tail => some { lead := lead, init := init, last := last, tail := tail }
     | _, _, _, _ => none
   | _ => none
@@ -164,17 +170,12 @@ def model (req : Sexp) : String :=
     apart (each is an `open` class of known/C36.json with a witness theorem in
     Props/C36.lean); only these appear in the class of a violation.  A variant
     pair without any of them that is not rejected is reported under the
-    generic class `variant-not-rejected`, which is never a known finding. -/
+    generic class `variant-not-rejected`, which is never a known finding.
+    (Since the fix commits of the comment, literal and white-space handling
+    only one is left: white space or a comment between two tokens on one side
+    only.) -/
 def unsafeFeatures : List String :=
-  ["optional-space",
-   "mlc-glued-after-word", "mlc-glued-after-op", "mlc-glued-after-list",
-   "mlc-glued-both-sides-after-literal",
-   "hash-glued-after-word", "hash-glued-after-op", "hash-glued-after-literal",
-   "hash-glued-after-list", "dash-glued-after-list",
-   "dash-glued-after-first-word", "dash-glued-after-literal", "dash-after-list",
-   "mlc-before-list", "dash-before-list", "hash-before-list",
-   "comment-with-quote-or-paren-inside-list",
-   "lit-doubled-quote", "lit-exponent-plus", "lit-leading-dot", "lit-prefixed-string-glued"]
+  ["optional-space"]
 
 def unsafeFeature (f : String) : Bool := unsafeFeatures.contains f
 
@@ -189,14 +190,10 @@ def oracle (req out : Sexp) : String :=
     match entries.mapM (fun e => Sexp.asAscii? e), Sexp.asAscii? q with
     | some es, some q =>
       let tq := trimSpace q
-      -- the same with the four white-space runes of the fingerprint only (no \v, \f)
-      let trim4 (l : List Char) : List Char := ((l.dropWhile isSpace).reverse.dropWhile isSpace).reverse
       if !tq.isEmpty && es.any (fun e => trimSpace e == tq) then
         match out with
         | .list [.atom "ok", _, b] =>
-          if b.asBool? == some false then "ok"
-          else if es.any (fun e => trimSpace e == trim4 q) then "viol identical-statement-not-rejected"
-          else "viol vertical-tab-form-feed-space"
+          if b.asBool? == some false then "ok" else "viol identical-statement-not-rejected"
         | .atom "panic" => "ok"
         | _ => "viol unparsable"
       else if es.all (fun e => (trimSpace e).isEmpty) then
